@@ -168,7 +168,9 @@ impl InstructionGenerator {
         self.push(Instruction::PushRegisters, pos);
 
         // run loop body
+        self.for_path.push(pos);
         self.visit(statements);
+        self.for_path.pop();
 
         // to be able to resume after an error at the last statement and then pop registers
         self.mark_statement_address();
